@@ -217,9 +217,9 @@ def _first(recs, pred):
 
 def run(ctx):
     q = ctx.quick
-    with concurrent.futures.ThreadPoolExecutor(max_workers=2) as ex:
-        f1, f2 = ex.submit(lib.go_build, "x06"), ex.submit(lib.go_build, "x06", "verif", True)
-        drv, drv_race = f1.result(), f2.result()
+    drv = lib.go_build("x06")
+    bg = concurrent.futures.ThreadPoolExecutor(max_workers=1)
+    race_build = bg.submit(lib.go_build, "x06", "verif", True)       # the -race build goes on while TLC checks the models
 
     # 1. the design satisfies the clauses; the invariants are not vacuous
     lib.spec_check(ctx, "CtxCopy", "CtxCopy_mc.cfg" if q else "CtxCopy_mc_thorough.cfg", workers=4 if q else 8, timeout=1500,
@@ -253,6 +253,8 @@ def run(ctx):
     tdir = ctx.sub("traces")
     traces, stats = _drive(ctx, drv, seq_f, tdir, chunks)
     nraces = 0
+    drv_race = race_build.result()
+    bg.shutdown()
     t0 = time.time()
     for i, line in enumerate(conc):
         tf = os.path.join(tdir, "trace_conc_%03d.ndjson" % i)
@@ -286,7 +288,7 @@ def run(ctx):
             elif '"ev":"ProbeC"' in ln and '"at":"end"' in ln:
                 nprobe_end += 1
                 if same:
-                    nontriv.add((cur["kind"], cur["shape"], cur["state"], cur["predump"], tuple(cur["pre"]),
+                    nontriv.add((cur["kind"], cur["shape"], cur["state"], cur["predump"], cur["rich"], tuple(cur["pre"]),
                                  tuple((s["at"], s["side"], s["m"]) for s in cur["steps"]), cur["ending"], cur["mode"], cur["trace"]))
             elif '"ev":"KGet"' in ln:
                 r = json.loads(ln)
@@ -403,7 +405,7 @@ def run(ctx):
                 "server-less contexts; copies handed to goroutines and concurrent use of the key/value store under the race detector. Each case "
                 "runs on the real code, every recorded line is validated by TLC. distinct_nontrivial = distinct cases whose final look at the "
                 "copy happened after a sentinel request had really been served with the very object the copy was taken from." %
-                (stats.get("mutators", 0) - 2, "1/40 seeded sample" if q else "1/2 seeded sample"),
+                (stats.get("mutators", 0) - 2, "1/50 seeded sample" if q else "1/2 seeded sample"),
     })
     ctx.assumptions += [
         "the observable state is what harness/drivers/x06/dump.go (the C09 probe set) reads through exported getters/fields; Date, addresses, "
